@@ -282,6 +282,97 @@ func classes() []class {
 			}
 			return nil
 		}},
+		// non-finite numbers against a partition that holds a few hundred items (several levels, linked vertices on
+		// the upper ones): whatever the comparisons with NaN do there, the apply loop and the search must come back
+		{"nan.populated", true, func(e *env, ctx context.Context) error {
+			d, err := dsm(e).Create(ctx, &pb.Dataset{Dimension: 3, Space: pb.Space_Euclidean, PartitionCount: 1, ReplicationFactor: 1})
+			if err != nil {
+				return err
+			}
+			var last error
+			for k := 0; k < 300; k++ {
+				id := id16(byte(k))
+				id[14] = byte(k >> 8)
+				for try := 0; try < 20; try++ {
+					c2, cancel := context.WithTimeout(context.Background(), 2*time.Second)
+					_, last = dm(e).Insert(c2, &pb.InsertRequest{DatasetId: d.GetId(), Id: id, Value: []float32{float32(k%17) + 0.25, float32(k%5) - 1.5, float32(k) * 0.01}})
+					cancel()
+					if last == nil || strings.Contains(last.Error(), "exists") {
+						last = nil
+						break
+					}
+					time.Sleep(200 * time.Millisecond)
+				}
+				if last != nil {
+					return last
+				}
+			}
+			nan := float32(math.NaN())
+			c2, cancel := context.WithTimeout(context.Background(), 4*time.Second)
+			id := id16(7)
+			id[13] = 9
+			_, e1 := dm(e).Insert(c2, &pb.InsertRequest{DatasetId: d.GetId(), Id: id, Value: []float32{nan, 1, 2}})
+			cancel()
+			c3, cancel3 := context.WithTimeout(context.Background(), 4*time.Second)
+			e2 := drainSearch(sr(e).Search(c3, &pb.SearchRequest{DatasetId: d.GetId(), Query: []float32{1, nan, 2}, K: 5}))
+			cancel3()
+			// afterwards the dataset still serves ordinary requests
+			c4, cancel4 := context.WithTimeout(context.Background(), 4*time.Second)
+			defer cancel4()
+			id2 := id16(8)
+			id2[13] = 9
+			if _, err := dm(e).Insert(c4, &pb.InsertRequest{DatasetId: d.GetId(), Id: id2, Value: []float32{1, 1, 1}}); err != nil {
+				return fmt.Errorf("after the NaN requests (%v / %v) an ordinary insert fails: %v", e1, e2, err)
+			}
+			if err := drainSearch(sr(e).Search(c4, &pb.SearchRequest{DatasetId: d.GetId(), Query: []float32{1, 1, 1}, K: 5})); err != nil {
+				return fmt.Errorf("after the NaN requests an ordinary search fails: %v", err)
+			}
+			return nil
+		}},
+		// writes that are on their way while their dataset is deleted (its partitions unload their raft groups)
+		{"write.racing.delete", false, func(e *env, ctx context.Context) error {
+			for round := 0; round < 6; round++ {
+				d, err := dsm(e).Create(ctx, &pb.Dataset{Dimension: 3, Space: pb.Space_Euclidean, PartitionCount: 2, ReplicationFactor: 1})
+				if err != nil {
+					return err
+				}
+				stop := make(chan struct{})
+				var wg sync.WaitGroup
+				for w := 0; w < 8; w++ {
+					wg.Add(1)
+					go func(w int) {
+						defer wg.Done()
+						for k := 0; ; k++ {
+							select {
+							case <-stop:
+								return
+							default:
+							}
+							id := id16(byte(k))
+							id[13], id[14] = byte(w), byte(k>>8)
+							c2, cancel := context.WithTimeout(context.Background(), 500*time.Millisecond)
+							switch k % 3 {
+							case 0:
+								dm(e).Insert(c2, &pb.InsertRequest{DatasetId: d.GetId(), Id: id, Value: vec(3, float32(k))})
+							case 1:
+								dm(e).Remove(c2, &pb.RemoveRequest{DatasetId: d.GetId(), Id: id})
+							default:
+								dm(e).BatchInsert(c2, &pb.BatchRequest{DatasetId: d.GetId(), Items: []*pb.BatchItem{{Id: id, Value: vec(3, 1)}}})
+							}
+							cancel()
+						}
+					}(w)
+				}
+				time.Sleep(time.Duration(150+50*round) * time.Millisecond)
+				c3, cancel := context.WithTimeout(context.Background(), 4*time.Second)
+				dsm(e).Delete(c3, &pb.UUIDRequest{Id: d.GetId()})
+				cancel()
+				time.Sleep(100 * time.Millisecond)
+				close(stop)
+				wg.Wait()
+			}
+			return nil
+		}},
 		{"delete.unknown", false, func(e *env, ctx context.Context) error {
 			_, err := dsm(e).Delete(ctx, &pb.UUIDRequest{Id: id16(9)})
 			return err
